@@ -56,6 +56,12 @@ def audit_solve(ctx, run, k, s):
         if not np.allclose(cs, inp["maxCulled"], rtol=1e-6, atol=1e-6 * max(1.0, float(cs[-1]))) and s.kind == "to_humans":
             ctx.count("meat-running-total-differs-from-cumsum")
             ctx.notes.append("round %d of %s: max_consumed_culled_kcals_each_month is not the running sum of each_month_meat_slaughtered" % (k + 1, run.iso))
+    # "grossed up for retail waste": the percentage the LP grosses human consumption up with is the configured retail waste, for every food
+    retail, _ = lpcheck.handoff_mismatches(s.opt)
+    for key, got, want in retail:
+        ctx.violation("retail-waste-not-configured:" + key, "%s round %d: the optimiser grosses human consumption up with %s = %r, the configured retail waste is %r" % (
+            run.iso, k + 1, key, got, want), dict(case, constant=key))
+    ctx.count("retail-waste-constants-compared", len(lpcheck.RETAIL_KEYS))
     if not getattr(run, "is_replay", False):
         lpcheck.flag_variant_ties(ctx, run, k, s, "C01", nvar=ctx.budget(1, 3))
     if s.values is None or s.error:
